@@ -177,7 +177,7 @@ theorem matchesSetextHeadingBar_noLoop (line : Bytes) : NoLoop (matchesSetextHea
   have := fun a => idx_noLoop line a
   unfold matchesSetextHeadingBar; noloop
 
-theorem calcListOffset_noLoop (source : Bytes) (m : M6) : NoLoop (calcListOffset source m) := by
+theorem calcListOffset_noLoop (source : Bytes) (m : M6) (lo : Int) : NoLoop (calcListOffset source m lo) := by
   have := fun a => sliceFrom_noLoop source a
   unfold calcListOffset; noloop
 
@@ -378,7 +378,7 @@ theorem listClose_pres (n : Nat) : Pres I (listClose n) := by
   unfold listClose; pres
 
 theorem listItemOpen_pres (p : Nat) : Pres I (listItemOpen p) := by
-  have := h.ronly; have := h.peekLine; have := h.advanceAndSetPadding
+  have := h.ronly; have := h.peekLine; have := h.lineOffset; have := h.advanceAndSetPadding
   have := lastOffset_pres h
   unfold listItemOpen; pres
 
